@@ -129,6 +129,7 @@ class Broker(object):
         self.dropped_expired = 0
         self.unroutable = 0
         self.fault_hook = None   # callable(op, node) -> may raise SimCrash
+        self.publish_hooks = []  # callables(ch, exchange, routing_key, body, props, queues, uid)
 
     # -- logging -------------------------------------------------------------
     def op(self, name, node, **kw):
@@ -299,6 +300,8 @@ class Broker(object):
                 mid=properties.message_id, cid=properties.correlation_id, reply_to=properties.reply_to,
                 expiration=properties.expiration, mandatory=bool(mandatory), queues=tuple(queues), uid=seq,
                 headers=properties.headers)
+        for h in self.publish_hooks:
+            h(ch, exchange, routing_key, body, properties, queues, seq)
         if not queues:
             self.unroutable += 1
             if mandatory:
